@@ -91,3 +91,30 @@ Definition judge_osample (c : ocase) (p : pt) : list Z :=
 Definition judge_o (c : ocase) : list Z :=
   if 0 <? count_crossings (edges (oPath c)) 0 then flat_map (fun _ => [0; 9]) (oSamples c)
   else flat_map (judge_osample c) (oSamples c).
+
+(** Offset of a path of several closed contours (a plate with a hole: every contour is moved to its own right-hand side): with
+    F = the region filled under the non-zero rule, grow: F or dist < |d|; shrink: F and dist > |d| (distance to all edges) *)
+Record ocase2 := mkOC2 {
+  o2Paths : list (list pt); o2Grow : bool; o2In2 : Z; o2Out2 : Z; o2R : list (list pt); o2Samples : list pt }.
+
+Definition judge_o2sample (c : ocase2) (p : pt) : list Z :=
+  let es := flat_map edges (o2Paths c) in
+  let inside := negb (wn (o2Paths c) p =? 0) in
+  let filled := negb (wn (o2R c) p =? 0) in
+  let near := near_path p es (o2In2 c) in
+  let far := far_edges p es (o2Out2 c) in
+  if o2Grow c then
+    if (inside && far) || near then [ (if filled then 0 else 4); 1 ]
+    else if negb inside && far then [ (if filled then 8 else 0); 2 ]
+    else [0; 0]
+  else
+    if inside && far then [ (if filled then 0 else 4); 1 ]
+    else if negb inside && far || near then [ (if filled then 8 else 0); 2 ]
+    else [0; 0].
+
+Definition judge_o2 (c : ocase2) : list Z :=
+  if 0 <? count_crossings (flat_map edges (o2Paths c)) 0 then flat_map (fun _ => [0; 9]) (o2Samples c)
+  else flat_map (judge_o2sample c) (o2Samples c).
+
+Inductive ocasex := O1 (c : ocase) | O2 (c : ocase2).
+Definition judge_ox (c : ocasex) : list Z := match c with O1 k => judge_o k | O2 k => judge_o2 k end.
